@@ -328,37 +328,9 @@ def run(cx):
     ab = pm.func("_eval_const._apply_bin")
 
     # ---- C03-EVAL-OPS ------------------------------------------------------------------------
-    r = cx.rule("C03-EVAL-OPS", "the constant evaluator maps every Python operator to the operator.* function with Python's semantics (// -> floordiv, / -> truediv ...), unary/boolean/conditional arms select what Python selects, casts are the four safe casts", floor=25)
-    sub_calls = [c for c in ast.walk(evc) if isinstance(c, ast.Call) and isinstance(c.func, ast.Subscript)]
-    bin_tbl = None
-    for c in sub_calls:
-        if m_enclosing(pm, c) is ab and norm(c.func.slice) == "opcls":
-            bin_tbl = _table_value(pm, ab, c.func.value)
-    if not isinstance(bin_tbl, dict):
-        raise AnalysisError("_apply_bin no longer dispatches through `table[opcls](a, b)`")
-    for k, v in bin_tbl.items():
-        kn = getattr(k, "name", str(k))
-        vn = getattr(v, "name", str(v)).split(".")[-1]
-        want = BIN_ORACLE.get(kn)
-        r.check(want is not None and vn == want, f"_apply_bin[{kn}]->{vn}", (pm, ab), f"ast.{kn} is folded with operator.{vn}; Python's semantics is operator.{want}")
-    r.check(set(getattr(k, "name", "") for k in bin_tbl) <= set(BIN_ORACLE), "_apply_bin/keys", (pm, ab), "unknown operator class in the fold table")
-    # the C-token table and the fold table must cover the same operators (an operator emitted but not foldable is fine;
-    # one folded but not emitted would silently change meaning between folded/unfolded uses)
-    cmp_tbl = None
-    for n in ast.walk(ev):
-        if isinstance(n, ast.Dict) and n.keys and all(isinstance(k, ast.Attribute) for k in n.keys) and any(dotted(k) == "ast.Eq" for k in n.keys):
-            cmp_tbl = lit.ev(n, pm)
-    if cmp_tbl is None:
-        # maybe hoisted
-        for name, node in pm.consts.items():
-            v = lit.try_ev(node, pm)
-            if isinstance(v, dict) and any(getattr(k, "name", "") == "Eq" for k in v) and all(isinstance(x, lit.Ref) for x in v.values()):
-                cmp_tbl = v
-    if not isinstance(cmp_tbl, dict):
-        raise AnalysisError("compare table of _eval_const not found")
-    for k, v in cmp_tbl.items():
-        kn, vn = getattr(k, "name", str(k)), getattr(v, "name", str(v)).split(".")[-1]
-        r.check(CMP_ORACLE.get(kn) == vn, f"_eval_const.compare[{kn}]->{vn}", (pm, ev), f"ast.{kn} is evaluated with operator.{vn}, expected operator.{CMP_ORACLE.get(kn)}")
+    r = cx.rule("C03-EVAL-OPS", "the constant evaluator maps every Python operator to the operator.* function with Python's semantics (// -> floordiv, / -> truediv ...), unary/boolean/conditional arms select what Python selects, casts are the four safe casts", floor=12)
+    # (binary and comparison operators are decided by value over a complete grid in C03-EVAL-SEM - wherever the evaluator
+    # keeps its operator tables)
     # unary / boolean / conditional arms: decided on values (however the arms are written - if-chain, table, helper)
     for key_, src_ in (("unary[USub]", "-3"), ("unary[USub]", "-(2.5)"), ("unary[USub]", "-(-4)"), ("unary[UAdd]", "+3"), ("unary[UAdd]", "+(-2.5)"), ("unary[Not]", "not 0"), ("unary[Not]", "not 2"), ("unary[Not]", "not ''"),
                        ("ifexp/selects-body-when-true", "1 if 5 else 2"), ("ifexp/selects-body-when-true", "1 if 0 else 2"), ("ifexp/selects-body-when-true", "'a' if '' else 'b'"),
@@ -371,8 +343,6 @@ def run(cx):
         # (and/or may be folded to their truth value: the type side of that is C02's known boolop finding)
         ok_ = o_.kind == "raise" or o_.value == want_ or (key_.startswith("boolop") and bool(o_.value) == bool(want_))
         r.check(ok_, f"_eval_const.{key_}", (pm, ev), f"_eval_const({src_!r}) -> {o_!r}; Python gives {want_!r}", sample=f"{src_} -> {want_!r}")
-    casts = lit.table(pm, "_SAFE_CASTS")
-    r.check({k: getattr(v, "name", None) for k, v in casts.items()} == {"int": "int", "float": "float", "str": "str", "bool": "bool"}, "_SAFE_CASTS/identity", (pm.rel, pm.const("_SAFE_CASTS").lineno), f"_SAFE_CASTS = {casts}")
 
     # ---- C03-EVAL-SEM ------------------------------------------------------------------------
     import itertools
@@ -425,8 +395,10 @@ def run(cx):
             r.ok(None)
         else:
             n_bad += 1
-            if n_bad <= 4:
-                r.fail(f"_eval_const/value[{'chained-comparison' if sum(e.count(o) for o in ('<', '>', '==', '!=')) > 1 else 'expression'}]", (pm, evc), f"_eval_const({e!r}) folds to {out.value!r} ({type(out.value).__name__}); Python gives {want[1]!r}" + ("" if want[0] == "ok" else " (raises)"), detail={"expr": e})
+            if n_bad <= 12:
+                top_ = ast.parse(e, mode="eval").body
+                kind_key = ("chained-comparison" if len(top_.ops) > 1 else f"compare[{type(top_.ops[0]).__name__}]") if isinstance(top_, ast.Compare) else f"binop[{type(top_.op).__name__}]" if isinstance(top_, ast.BinOp) else f"unary[{type(top_.op).__name__}]" if isinstance(top_, ast.UnaryOp) else f"boolop[{type(top_.op).__name__}]" if isinstance(top_, ast.BoolOp) else f"call[{top_.func.id}]" if isinstance(top_, ast.Call) and isinstance(top_.func, ast.Name) else type(top_).__name__.lower()
+                r.fail(f"_eval_const/value[{kind_key}]", (pm, evc), f"_eval_const({e!r}) folds to {out.value!r} ({type(out.value).__name__}); Python gives {want[1]!r}" + ("" if want[0] == "ok" else " (raises)"), detail={"expr": e})
             else:
                 r.stat.obligations += 1
                 r.stat.failed += 1
